@@ -16,7 +16,10 @@ Import ListNotations.
 
 Inductive cause := CInterval | CMaxDur | CCtxDone | CMaxSize.
 Inductive berr := EUser | EPanic | EWrongLen | ECtx.
-Inductive outcome := ORes (rs : list nat) | OErr | OPanic.
+(* what Many panicked with: a string, an error value, a runtime.Error (nil-map write, index out of range, nil
+   dereference, failed type assertion), a value of any other type.  safeInvoke recovers every one of them alike. *)
+Inductive pkind := PString | PError | PRuntime | PCustom.
+Inductive outcome := ORes (rs : list nat) | OErr | OPanic (k : pkind).
 Inductive ret := RVal (v : nat) | RErr (e : berr) | RIndexPanic.
 Inductive phase := Open | Woken | Unpub | Ran | Cancelled.
 
@@ -162,7 +165,7 @@ Definition step (s : state) (l : label) : option state :=
                 match o with
                 | ORes rs => if Nat.eqb (length rs) (length (g_args g)) then (Some rs, None) else (None, Some EWrongLen)
                 | OErr => (None, Some EUser)
-                | OPanic => (None, Some EPanic)
+                | OPanic _ => (None, Some EPanic)
                 end in
               Some (set_group s gi (mkGroup (g_fid g) (g_shard g) (g_args g) (g_closed g) Ran (g_ctxc g)
                                             (Some (g_args g)) res err false))
